@@ -674,3 +674,113 @@ func (p *upath) value(v ssa.Value) ssa.Value {
 	}
 	return v
 }
+
+// instrsOfU visits the instructions of f and of the private helpers it calls.
+func instrsOfU(f *ssa.Function, fn func(in ssa.Instruction)) {
+	for _, g := range unitOf(f) {
+		instrsOf(g, fn)
+	}
+}
+
+// singleReturn: the value a private helper returns as result i, if it has exactly one return
+// (outside the recover block) and that return yields one value; nil otherwise.
+func singleReturn(h *ssa.Function, i int) ssa.Value {
+	var ret *ssa.Return
+	n := 0
+	for _, b := range h.Blocks {
+		if b == h.Recover {
+			continue
+		}
+		if r, ok := b.Instrs[len(b.Instrs)-1].(*ssa.Return); ok {
+			ret = r
+			n++
+		}
+	}
+	if n != 1 || i >= len(ret.Results) {
+		return nil
+	}
+	vs := retValAt(ret, i)
+	if len(vs) != 1 {
+		return nil
+	}
+	return vs[0]
+}
+
+// origin follows a value to where it comes from across the boundaries a refactoring
+// introduces without changing the value: a parameter of a private helper is the argument
+// (of the call being looked through, or of the helper's only call site), the result of a
+// private helper with a single return is the value returned there, a local assigned once
+// is the value assigned. Conversions that keep the value are not removed (use strip).
+func origin(v ssa.Value) ssa.Value {
+	if curSites == nil {
+		return v
+	}
+	bind := map[ssa.Value]ssa.Value{}
+	for i := 0; i < 16; i++ {
+		switch x := v.(type) {
+		case *ssa.Parameter:
+			if a, ok := bind[x]; ok {
+				v = a
+				continue
+			}
+			if r := resolveParam(x); r != v {
+				v = r
+				continue
+			}
+			return v
+		case *ssa.Call:
+			h := helperCallee(x)
+			if h == nil || h.Signature.Results().Len() != 1 {
+				return v
+			}
+			rv := singleReturn(h, 0)
+			if rv == nil {
+				return v
+			}
+			for k, prm := range h.Params {
+				if k < len(x.Call.Args) {
+					bind[prm] = x.Call.Args[k]
+				}
+			}
+			v = rv
+			continue
+		case *ssa.Extract:
+			call, ok := x.Tuple.(*ssa.Call)
+			if !ok {
+				return v
+			}
+			h := helperCallee(call)
+			if h == nil {
+				return v
+			}
+			rv := singleReturn(h, x.Index)
+			if rv == nil {
+				return v
+			}
+			for k, prm := range h.Params {
+				if k < len(call.Call.Args) {
+					bind[prm] = call.Call.Args[k]
+				}
+			}
+			v = rv
+			continue
+		case *ssa.UnOp:
+			if d := derefLocal(v); d != v {
+				v = d
+				continue
+			}
+			return v
+		default:
+			return v
+		}
+	}
+	return v
+}
+
+// sameOrigin: the two values are the same value up to helper boundaries and single-assignment locals.
+func sameOrigin(a, b ssa.Value) bool {
+	if a == nil || b == nil {
+		return a == b
+	}
+	return a == b || origin(a) == origin(b) || sameVal(a, b)
+}
